@@ -1,5 +1,9 @@
 (* C19 model driver.  Case line:  <mode> <op> ; <op> ; ...   (mode = sim | real; the model treats both
-   alike except that `rrecv` builds its read schedule from the FIFO channel).  See checks/c19.py. *)
+   alike except that `rrecv` builds its read schedule from the FIFO channel).  See checks/c19.py.
+   An optional first operation `fds <n>` says that n is the lowest descriptor number that is free when the
+   scenario starts (0, 1, 2: the standard streams from n on are closed; larger: everything below n is
+   taken); without it n = 3, an ordinary process.  The descriptor-table oracle is then the kernel's:
+   pick_low n, the lowest number >= n that is not open. *)
 exception Model_fault of string
 
 let inc = str_buff_inc
@@ -44,11 +48,12 @@ let parse_shape s = List.map (fun t ->
 
 let term_of = function "a" -> REagain | "z" -> REof | _ -> failwith "term"
 
-type pop = Plain of op | RRecv_op of int * rd_event * rd_shape list
+type pop = Plain of op | RRecv_op of int * rd_event * rd_shape list | Fds of int
 
 let nat s = nat_of_int (int_of_string s)
 let parse_op (toks : string list) : pop =
   match toks with
+  | ["fds"; n] -> Fds (int_of_string n)
   | ["new"; lr] -> Plain (ONew (bit lr.[0], bit lr.[1]))
   | ["open"; i; b] -> Plain (OOpen (nat i, bit b.[0], bit b.[1], bit b.[2], bit b.[3]))
   | ["accept"; i; n; a; d] -> Plain (OAccept (nat i, nat n, bit a.[0], bit d.[0]))
@@ -95,18 +100,26 @@ let run_line (toks : string list) : string =
   | [] -> "DRIVER-ERROR:empty"
   | _mode :: rest ->
     let ops = List.map parse_op (split_ops [] [] rest) in
+    let base = (match ops with Fds n :: _ -> n | _ -> 3) in
+    if base < 0 || List.exists (function Fds _ -> true | _ -> false) (match ops with [] -> [] | _ :: t -> t)
+    then "DRIVER-ERROR:fds" else
+    let pick = pick_low (z_of_int base) in
     let w = ref { w_open = []; w_objs = [] } in
     let chan = ref [] in
     let out = Buffer.create 256 in
     (try
        List.iter (fun po ->
+           match po with
+           | Fds _ -> Buffer.add_string out "f+0!0 "
+           | _ ->
            let o = (match po with
                | Plain o -> o
+               | Fds _ -> assert false
                | RRecv_op (i, term, shape) ->
                  let sched = fifo_sched !chan shape term in
                  chan := [];
                  ORecv (nat_of_int i, sched)) in
-           let (w1, r) = step pick_max inc !w o in
+           let (w1, r) = step pick inc !w o in
            (match r with RSend (Ok so) -> chan := !chan @ so.so_acc | _ -> ());
            w := w1;
            Buffer.add_string out (show_result r);
@@ -118,9 +131,9 @@ let run_line (toks : string list) : string =
            | None -> ()
            | Some s ->
              let st = if int_of_z s.s_fd < 0 then "-" else if is_open !w.w_open s.s_fd then "o" else "x" in
-             Buffer.add_string out (Printf.sprintf " %d:%s~%04x" k st (int_of_z s.s_flags)))
+             Buffer.add_string out (Printf.sprintf " %d:%s~%04x@%d" k st (int_of_z s.s_flags) (int_of_z s.s_fd)))
          !w.w_objs;
-       let wf = cleanup pick_max inc !w (fun _ -> (O, true)) in
+       let wf = cleanup pick inc !w (fun _ -> (O, true)) in
        Buffer.add_string out (Printf.sprintf " | leak=%d" (List.length wf.w_open));
        Buffer.contents out
      with Model_fault f -> "FAULT:" ^ f)
